@@ -55,12 +55,88 @@ func origin(f *ir.Func, e ast.Expr) ast.Expr {
 			return e
 		}
 		defs := wholeDefs(f, obj)
+		if len(defs) == 2 {
+			// `var x T` followed by one assignment that dominates this use
+			if d, ok := soleAssignmentAfterDecl(f, defs, id); ok {
+				e = d.RHS
+				continue
+			}
+		}
 		if len(defs) != 1 || defs[0].RHS == nil {
 			return e
 		}
 		e = defs[0].RHS
 	}
 	return e
+}
+
+// soleAssignmentAfterDecl: defs is {bare declaration, one 1:1 assignment} and
+// the assignment's node dominates the node using the variable at `use`.
+func soleAssignmentAfterDecl(f *ir.Func, defs []ir.Write, use ast.Node) (ir.Write, bool) {
+	var decl, asg *ir.Write
+	for i := range defs {
+		if vs, ok := defs[i].Stmt.(*ast.ValueSpec); ok && len(vs.Values) == 0 {
+			decl = &defs[i]
+		} else {
+			asg = &defs[i]
+		}
+	}
+	if decl == nil || asg == nil || asg.RHS == nil {
+		return ir.Write{}, false
+	}
+	g := f.Graph()
+	un, an := g.NodeContaining(use.Pos()), g.NodeContaining(asg.LHS.Pos())
+	if un == nil || an == nil || un == an || !g.DominatedByNode(un, an) {
+		return ir.Write{}, false
+	}
+	return *asg, true
+}
+
+// copySource follows whole-value copies `x = y` / `x, … = y, …`: when obj's
+// only definition besides a bare declaration is a copy of another local
+// variable, and that source is not written on any path after the copy, the
+// source variable is returned (repeatedly, at most 4 hops).
+func copySource(f *ir.Func, obj types.Object) types.Object {
+	for i := 0; i < 4 && obj != nil; i++ {
+		var asg *ir.Write
+		n := 0
+		defs := wholeDefs(f, obj)
+		for j := range defs {
+			if vs, ok := defs[j].Stmt.(*ast.ValueSpec); ok && len(vs.Values) == 0 {
+				continue
+			}
+			asg = &defs[j]
+			n++
+		}
+		if n != 1 || asg.RHS == nil {
+			return obj
+		}
+		src, ok := f.ObjOf(asg.RHS).(*types.Var)
+		if !ok || src.IsField() || f.ObjOf(asg.RHS) == obj {
+			return obj
+		}
+		g := f.Graph()
+		cn := g.NodeContaining(asg.LHS.Pos())
+		if cn == nil {
+			return obj
+		}
+		var st []*cfgx.Visit
+		for _, e := range cn.Succs {
+			st = append(st, cfgx.StartAfter(e, 0))
+		}
+		for m := range g.Reach(st, nil) {
+			if m.AST == nil {
+				continue
+			}
+			for _, w := range f.WritesIn(m.AST, false) {
+				if f.ObjOf(rootOfLvalue(w.LHS)) == src {
+					return obj
+				}
+			}
+		}
+		obj = src
+	}
+	return obj
 }
 
 // tupleDef returns the call and result index that define obj in a tuple
@@ -242,4 +318,49 @@ func derivesFromCallN(f *ir.Func, e ast.Node, pred func(ir.Call) bool, depth int
 		return true
 	})
 	return found
+}
+
+// lvalueCopySource: when the only assignment to the lvalue lv in f is a copy
+// of a local variable that is not written afterwards, returns that variable's
+// identifier; otherwise lv.
+func lvalueCopySource(f *ir.Func, lv ast.Expr) ast.Expr {
+	var asg *ir.Write
+	n := 0
+	ws := f.WritesIn(f.Body, false)
+	for i := range ws {
+		if sameLvalue(f, ws[i].LHS, lv) {
+			if vs, ok := ws[i].Stmt.(*ast.ValueSpec); ok && len(vs.Values) == 0 {
+				continue
+			}
+			asg = &ws[i]
+			n++
+		}
+	}
+	if n != 1 || asg.RHS == nil {
+		return lv
+	}
+	src, ok := f.ObjOf(asg.RHS).(*types.Var)
+	if !ok || src.IsField() {
+		return lv
+	}
+	g := f.Graph()
+	cn := g.NodeContaining(asg.LHS.Pos())
+	if cn == nil {
+		return lv
+	}
+	var st []*cfgx.Visit
+	for _, e := range cn.Succs {
+		st = append(st, cfgx.StartAfter(e, 0))
+	}
+	for m := range g.Reach(st, nil) {
+		if m.AST == nil {
+			continue
+		}
+		for _, w := range f.WritesIn(m.AST, false) {
+			if f.ObjOf(rootOfLvalue(w.LHS)) == src {
+				return lv
+			}
+		}
+	}
+	return asg.RHS
 }
